@@ -168,6 +168,63 @@ def work(task):
     return stats, viol
 
 
+LONG = [
+    dict(N=1, r=3.0, box="B1", env="cos3"),
+    dict(N=1, r=2.0, box="B0", env="sym"),
+    dict(N=1, r=2.0, box="B0", env="const"),
+    dict(N=2, r=2.5, box="B0", env="sym"),
+    dict(N=2, r=3.0, box="B1", env="cos3"),
+    dict(N=1, r=2.0, box="B0", env="quad"),
+]
+
+
+def long_task(task):
+    """objectives with many exactly equal characteristics (symmetric about the centre, constant): DoGlobalIteration(k)
+    [+ DoGlobalIteration(j)] then Solve up to T trials, for EVERY k < T - the sequence must be the canonical one
+    whatever k is (the order in which equal characteristics leave the queue may not depend on the call pattern)"""
+    cfg, T = task["cfg"], task["T"]
+    f = env_of(cfg)
+    run = tree.make_run(cfg, f)
+    viol = []
+    for j in range(1, T + 1):
+        try:
+            run.step(1)
+        except BaseException as e:
+            if tree._horizon(run, cfg):
+                T = j - 1        # doubles cannot split the interval any more (C03 known finding): the run ends here
+                break
+            return 0, [dict(driver="long", cfg=cfg, T=T, comp=[1] * j, message=f"DoGlobalIteration(1) raised "
+                            f"{type(e).__name__}: {e} at trial {j}", sig={})]
+    canon = hexlog(run.problem.log)
+    n = 0
+    for k in [k for k in task["ks"] if k < T]:
+        for second in (0, 5):
+            comp = [k] + ([second] if second and k + second < T else [])
+            r = tree.make_run(dict(cfg, eps=0.0, itersLimit=T), f)
+            try:
+                for b in comp:
+                    r.step(b)
+                r.solve()
+            except BaseException as e:
+                viol.append(dict(driver="long", cfg=cfg, T=task["T"], comp=comp, message=f"batches {comp} then Solve raised "
+                                 f"{type(e).__name__}: {e}", sig={}))
+                continue
+            n += 1
+            log = hexlog(r.problem.log)
+            if log != canon:
+                d = next((i + 1 for i, (a, c) in enumerate(zip(log, canon)) if a != c), min(len(log), len(canon)) + 1)
+                viol.append(dict(driver="long", cfg=cfg, T=task["T"], comp=comp,
+                                 message=f"{cfg['env']} N={cfg['N']}: batches {comp} then Solve(itersLimit={T}) made "
+                                         f"{len(log)} trials and differs from DoGlobalIteration({T}) at trial {d}", sig={}))
+        if len(viol) > 5:
+            break
+    return n, viol
+
+
+def replay_long(rec):
+    return [v["message"] for v in long_task(dict(cfg=rec["cfg"], T=rec["T"], ks=[rec["comp"][0]]))[1]]
+
+
 def dump():
     """print the canonical logs (used for the cross-process determinism comparison)"""
     out = {}
@@ -207,6 +264,13 @@ def run(ctx):
         runs += st["runs"]
         comps += st["comps"]
         res.merge_violations(viol)
+    T = 200 if th else 100
+    ltasks = [dict(cfg=cfg, T=T, ks=list(range(a, min(T, a + 10)))) for cfg in LONG for a in range(1, T, 10)]
+    nlong = 0
+    for t, (k, viol) in zip(ltasks, pmap(long_task, ltasks)):
+        nlong += k
+        runs += k
+        res.merge_violations(viol)
     # determinism across processes / hash seeds
     here = {}
     for i, cfg in enumerate(OBJECTIVES):
@@ -223,7 +287,8 @@ def run(ctx):
         rule="states = call histories (compositions of n' <= n into DoGlobalIteration batches, optionally with a zero "
              "batch); transitions = executions: history + Solve(eps class, budget) + second Solve, compared bit for bit "
              "with the canonical sequence; non-trivial = compositions with at least one batch",
-        exhaustive=True, n=n, objectives=objs, processes_compared=2,
+        exhaustive=True, n=n, objectives=objs, processes_compared=2, long_single_batch_histories=nlong, long_T=T,
+        long_objectives=LONG,
         samples=[dict(cfg=objs[0], comp=[2, 1, 3], eps="every class", itersLimit="s-1, s+1, n+2")],
     )
     res.assumptions = ["objectives from a fixed list; for compositions other than single-batch / all-ones only three "
@@ -239,6 +304,8 @@ def replay(rec):
             log, states, D = canonical(c, 14)
             here[str(i)] = json.loads(json.dumps(dict(log=log, states=states)))
         return [f"hash seed {hs}: different sequence" for hs, o in zip((1, 2), cross_process()) if o != here]
+    if rec["driver"] == "long":
+        return replay_long(rec)
     n = rec["n"]
     canon, states, D = canonical(cfg, n + 3)
     if rec["driver"] == "repeat":
